@@ -175,6 +175,56 @@ def run(run, tier, seed):
                         run.evaluations += 1
                         if t > 1 and ns >= 10:
                             run.nontriv([cmd, inp, t, ns, rep, " ".join(mk(t, "OUT")[-3:])])
+        # ska lo: identical with a reference, same columns up to order and strand without
+        import derive, lodrv, skacli
+        comp = {65: 84, 84: 65, 67: 71, 71: 67}
+        sb = skacli.Sandbox("c11lo")
+        try:
+            for li in range(2 if tier == "quick" else 8):
+                k = [15, 21, 31, 17][li % 4]
+                ns = rng.randint(4, 8)
+                sc = derive.lo_snp_scenario(rng, k, ns, rng.randint(400, 700), rng.randint(3, 8))
+                if sc is None:
+                    continue
+                names = ["t%d_%d" % (li, i) for i in range(ns)]
+                recs = [[x["seq"] for x in r] for r in sc["samples"]]
+                sb.reset()
+                ref = os.path.join(sb.dir, "ref%d.fa" % li)
+                vlib.write_fasta(ref, [sc["ancestor"]], names=["anc"])
+                e = sb.build("lo%d" % li, recs, names, k, True)
+                if not e.get("ok"):
+                    continue
+                for refmode in (False, True):
+                    ep += 1
+                    base = None
+                    for t in threads_list:
+                        out = os.path.join(sb.dir, "lo_out_%d_%d_%d" % (li, refmode, t))
+                        args = ["lo", sb.path("lo%d" % li), out, "--threads", str(t)] + (["-r", ref] if refmode else [])
+                        rc, so, se, hook = run_cmd(args, os.path.join(tmp, "trlo.ndjson"))
+                        val = None
+                        if rc == 0:
+                            rd = lambda suffix: open(out + suffix).read() if os.path.exists(out + suffix) else ""
+                            if refmode:
+                                val = [rd("_snps.fas"), rd("_snps.vcf"), rd("_pseudo_genomes.fas")]
+                            else:
+                                nm, seqs = vlib.parse_fasta_text(rd("_snps.fas"))
+                                n = len(seqs[0]) if seqs else 0
+                                cols = []
+                                for j in range(n):
+                                    c = tuple(ord(x[j]) for x in seqs)
+                                    cols.append(min(c, tuple(comp.get(y, y) for y in c)))
+                                val = [nm, sorted(cols)]
+                        if t == threads_list[0]:
+                            base = val
+                        events.append({"ev": "run", "ep": ep, "cmd": "lo", "input": "skf", "threads": t, "rep": 0, "nsamples": ns, "rc": rc,
+                                       "hook": [{kk: h[kk] for kk in h if kk not in ("pid", "entries")} for h in hook if h["ev"].startswith("pool")],
+                                       "same_as_t1": val is not None and val == base, "panic": "", "args": " ".join(args[:1] + args[3:]),
+                                       "err": "" if rc == 0 else se.decode(errors="replace")[-300:]})
+                        run.evaluations += 1
+                        if t > 1:
+                            run.nontriv(["lo", li, refmode, t])
+        finally:
+            sb.close()
     finally:
         shutil.rmtree(tmp, ignore_errors=True)
     ok, bad, states = vlib.validate_trace("Trace_Par", events, "c11", shards=8, timeout=1800)
